@@ -714,3 +714,20 @@ def const_value_num(node: ast.AST):
     if isinstance(node, ast.UnaryOp) and isinstance(node.op, ast.USub):
         return -const_value_num(node.operand)
     raise ValueError
+
+
+def guard_latch(ctx: Ctx, rule: str, fn: FunctionInfo, flag: str, action_pattern: str, what: str) -> None:
+    """One-shot discipline: `flag = True` is dominated by `not flag`, and every statement matching ``action_pattern`` is
+    either dominated by `not flag` itself or only reachable through the latch statement (so it runs at most once)."""
+    latch = stmts_matching(fn, f"{flag} = True")
+    if len(latch) != 1:
+        raise AnalysisError(f"{rule}: expected exactly one `{flag} = True` in {fn.key}, found {len(latch)}")
+    ok, why = holds_with_callers(ctx, fn, latch[0][0], [parse_expr(f"not {flag}")], depth=0)
+    ctx.ob(rule, "G1", fn, latch[0][0], ok, f"{what}: the latch `{flag} = True` is set only under `not {flag}` — " + ("holds" if ok else "FAILS: " + why))
+    acts = stmts_matching(fn, action_pattern)
+    if not acts:
+        raise AnalysisError(f"{rule}: pattern `{action_pattern}` matched nothing in {fn.key}")
+    for st, _ in acts:
+        ok1, _ = holds_with_callers(ctx, fn, st, [parse_expr(f"not {flag}")], depth=0)
+        ok2 = not always_before(ctx, fn, lambda n: n.ast is latch[0][0], lambda n, st=st: n.ast is st)
+        ctx.ob(rule, "G1", fn, st, ok1 or ok2, f"{what}: `{norm_stmt(st)}` runs at most once (behind the `{flag}` latch)")
